@@ -10,3 +10,4 @@ rc=${PIPESTATUS[0]}
 git -C /repo checkout -- . 
 git -C /repo clean -fdq -- . ':!target' 2>/dev/null
 echo "check rc=$rc"
+(cd /verif/harness && CARGO_NET_OFFLINE=true cargo build --release -q 2>/dev/null) # leave a binary built from the clean tree
